@@ -32,6 +32,9 @@ TRUSTED += [
     "array (int64/int32/int8/bool/float32 data, a list of Python ints for the tools) is observed by the correspondence and the "
     "direct checks on typed arrays, not proved; per-feature bounds whose count differs from the number of columns are refused "
     "(a 1-column array would be broadcast to a wider one: not generated)",
+    "PCA has no partially specified configuration in which a declared parameter is a clipping domain of the input "
+    "(centered=False subtracts a noisy mean before the norm clip and derives the norm from the centred data), so PCA is "
+    "not in the partial-domain stream",
     "multi-step use (fit then partial_fit / refit / warm start on the same instance) is covered by the end-to-end equality on "
     "two-batch sequences f(A then D) == f(A then clip(D)), not by a theorem about the estimator's state",
 ]
@@ -50,7 +53,12 @@ RULE = ("helper cases: arrays of 0-6 rows x 1-9 columns with entries inside / ex
         "(about half of all rows), so that bit-for-bit equality is the correct expectation; non-trivial when clip(D) != D. "
         "Variants of both streams: data typed int64/int32/int8/bool/float32/Python-int list with fractional scalar and per-feature "
         "bounds the type cannot represent; rows whose norm is c(1 +- delta), delta from a few ulps to 1e-4; two-batch sequences "
-        "(fit+partial_fit, partial_fit twice, refit, warm start) with the out-of-domain records in the second batch")
+        "(fit+partial_fit, partial_fit twice, refit, warm start) with the out-of-domain records in the second batch; narrow windows "
+        "at large offsets (|mid| 1e3..1e10, width 1e-8..1e-3 relative) with records just outside the DECLARED bounds for the "
+        "callers of check_bounds(min_separation=1e-5) (quantile/percentile/median, KMeans), plus check_bounds itself: the result "
+        "contains the declared bounds and is no wider than max(declared width, min_separation); partially specified domains "
+        "(LinearRegression bounds_X xor bounds_y, histogramdd ranges for some dimensions, forest/tree bounds without classes): "
+        "only the declared domain is clipped in the reference image")
 
 V = dp.validation
 
@@ -458,6 +466,84 @@ FIXED_HELPER = [
 ]
 
 
+def check_bounds_case(case):
+    """check_bounds(bounds, shape, min_separation=s) must return bounds that contain the declared ones and are no wider than
+    max(declared width, s): the declared domain is widened only when it is narrower than the ABSOLUTE separation"""
+    lo, hi, s, shape = case["lower"], case["upper"], case["sep"], case["shape"]
+    b = (lo[0], hi[0]) if case.get("scalar_args") else (np.array(lo, dtype=float), np.array(hi, dtype=float))
+    lo0, hi0 = list(lo), list(hi)
+    try:
+        with warnings.catch_warnings():
+            warnings.simplefilter("ignore")
+            L, U = V.check_bounds(b, shape, min_separation=s)
+    except Exception as e:  # noqa
+        return ("C10:check_bounds:refuses-valid", f"check_bounds(({lo}, {hi}), {shape}, min_separation={s}) raised {type(e).__name__}: {e}")
+    if not case.get("scalar_args") and (list(b[0]) != lo0 or list(b[1]) != hi0):
+        return ("C10:check_bounds:modifies-input", "the caller's bounds arrays were modified")
+    L = np.atleast_1d(np.asarray(L, dtype=float))
+    U = np.atleast_1d(np.asarray(U, dtype=float))
+    n = max(shape, 1)
+    if L.shape != (n,) or U.shape != (n,):
+        return ("C10:check_bounds:shape", f"returned shapes {L.shape}, {U.shape} for shape={shape}")
+    dl = np.broadcast_to(np.array(lo, dtype=float), (n,))
+    du = np.broadcast_to(np.array(hi, dtype=float), (n,))
+    for j in range(n):
+        ulp = 4 * float(np.spacing(max(abs(dl[j]), abs(du[j]), 1e-300)))
+        w = du[j] - dl[j]
+        if not (L[j] <= dl[j] + ulp and U[j] >= du[j] - ulp):
+            return ("C10:check_bounds:shrinks-declared",
+                    f"check_bounds(({lo}, {hi}), {shape}, min_separation={s}) returned [{L[j]!r}, {U[j]!r}] for feature {j}, "
+                    f"which does not contain the declared [{dl[j]!r}, {du[j]!r}]")
+        if not U[j] - L[j] <= max(w, s) + ulp:
+            return ("C10:check_bounds:widens-declared",
+                    f"check_bounds(({lo}, {hi}), {shape}, min_separation={s}) returned [{L[j]!r}, {U[j]!r}] (width {U[j] - L[j]!r}) for "
+                    f"feature {j}: wider than max(declared width {w!r}, min_separation {s!r}); data between the declared and the "
+                    f"returned bounds would be released unclipped")
+        if w >= s and (L[j] != dl[j] or U[j] != du[j]):
+            return ("C10:check_bounds:widens-declared",
+                    f"check_bounds(({lo}, {hi}), {shape}, min_separation={s}) changed bounds [{dl[j]!r}, {du[j]!r}] that are already "
+                    f"separated by {w!r} >= {s!r} to [{L[j]!r}, {U[j]!r}]")
+    return None
+
+
+FIXED_CB = [
+    {"lower": [1.6e9], "upper": [1.6e9 + 3600.0], "sep": 1e-5, "shape": 0, "scalar_args": True},
+    {"lower": [0.0, 50000.0], "upper": [1.0, 50000.3], "sep": 1e-5, "shape": 2},
+    {"lower": [3.0], "upper": [3.0], "sep": 1e-5, "shape": 0, "scalar_args": True},
+]
+
+
+def check_check_bounds(ctx):
+    r = ctx.fork("check_bounds")
+    cases = list(FIXED_CB)
+    for _ in range(ctx.budget(400, 6000)):
+        shape = r.choice([0, 1, 2, 3, 5])
+        n = 1 if (shape == 0 or r.chance(0.3)) else shape
+        sep = r.choice([0.0, 1e-5, 1e-5, 1e-3, 1.0])
+        lo, hi = [], []
+        for _ in range(n):
+            m = r.u01()
+            if m < 0.45:
+                _, l, u = gen_offset_bounds(r, 0)
+            elif m < 0.6:
+                l = r.choice([0.0, r.uniform(-5, 5), r.loguniform(1e3, 1e10)])
+                u = l + r.choice([0.0, sep / 3, sep * 0.999, float(np.spacing(abs(l) or 1.0)) * r.randint(1, 3)])
+            else:
+                l = r.uniform(-10, 10)
+                u = l + r.choice([sep, sep * 2, r.loguniform(1e-6, 10.0), 1.0])
+            lo.append(float(l))
+            hi.append(float(u))
+        cases.append({"lower": lo, "upper": hi, "sep": sep, "shape": shape, "scalar_args": n == 1 and r.chance(0.5)})
+    for case in cases:
+        v = check_bounds_case(case)
+        if v:
+            ctx.violation(v[0], v[1], {"kind": "check_bounds", "case": case})
+        widened = any(u - l < case["sep"] for l, u in zip(case["lower"], case["upper"]))
+        ctx.case(("check_bounds", case["shape"], len(case["lower"]), case["sep"], widened,
+                  int(math.log10(max(abs(case["lower"][0]), 1.0)))))
+    ctx.count("check_bounds_cases", len(cases))
+
+
 def check_helpers(ctx):
     r = ctx.fork("helpers")
     n = ctx.budget(4000, 60000)
@@ -505,6 +591,48 @@ def gen_e2e_bounds(r, d, min_width=1e-3):
     lo = [base + r.uniform(-2, 2) for _ in range(d)]
     hi = [l + r.choice([width, r.uniform(0.05, 4.0)]) for l in lo]
     return "perfeature", lo, hi
+
+
+def gen_offset_bounds(r, d):
+    """narrow windows at a large offset: |mid| in 1e3..1e10, width in [1e-8, 1e-3]*|mid| and >= 1e-3 (always far above the absolute
+    min_separation 1e-5 of quantile / KMeans, so the declared bounds are the domain)"""
+    def one():
+        mid = r.choice([-1.0, 1.0, 1.0]) * r.choice([1.6e9, 5e4, r.loguniform(1e3, 1e10), r.loguniform(1e3, 1e10)])
+        w = max(abs(mid) * r.loguniform(1e-8, 1e-3), 1e-3)
+        lo = mid - w / 2
+        return lo, lo + w
+    if d == 0:
+        lo, hi = one()
+        return "offset", lo, hi
+    lo, hi = [], []
+    for j in range(d):
+        if j > 0 and r.chance(0.4):
+            b = r.uniform(-5, 5)
+            l, u = b, b + r.uniform(0.5, 3.0)
+        else:
+            l, u = one()
+        lo.append(l)
+        hi.append(u)
+    return "offset", lo, hi
+
+
+def gen_data_near(r, n, lo, hi, d, out_p):
+    """like gen_data, but the out-of-domain records lie just outside the declared bounds (1e-6..1e-4 of the offset)"""
+    cols = max(d, 1)
+    L = np.broadcast_to(np.asarray(lo, dtype=float), (cols,))
+    U = np.broadcast_to(np.asarray(hi, dtype=float), (cols,))
+    X = np.empty((n, cols))
+    for i in range(n):
+        for j in range(cols):
+            scale = max(abs(L[j] + U[j]) / 2, 1.0)
+            if r.chance(out_p):
+                off = r.choice([scale * r.loguniform(1e-6, 1e-4), (U[j] - L[j]) * r.loguniform(0.05, 2.0)])
+                X[i, j] = r.choice([L[j] - off, U[j] + off])
+            elif r.chance(0.08):
+                X[i, j] = r.choice([L[j], U[j]])
+            else:
+                X[i, j] = r.uniform(L[j], U[j])
+    return X
 
 
 def gen_data(r, n, lo, hi, d, out_p, nan_p=0.0):
@@ -564,7 +692,9 @@ def run_tool(name, X, case):
                                   range=[(case["lower"][0], case["upper"][0]), (case["lower"][1], case["upper"][1])], **kw)
         return [np.asarray(h, dtype=float), np.asarray(ex, dtype=float), np.asarray(ey, dtype=float)]
     if name == "histogramdd":
-        h, es = T.histogramdd(X, bins=case["bins"], range=[(l, u) for l, u in zip(case["lower"], case["upper"])], **kw)
+        decl = case.get("declared") or [True] * len(case["lower"])
+        h, es = T.histogramdd(X, bins=case["bins"],
+                              range=[(l, u) if dcl else None for l, u, dcl in zip(case["lower"], case["upper"], decl)], **kw)
         return [np.asarray(h, dtype=float)] + [np.asarray(e, dtype=float) for e in es]
     raise KeyError(name)
 
@@ -592,13 +722,15 @@ def make_model(name, case):
     if name.startswith("LinearRegression"):
         ylo = np.array(case["ylower"]) if isinstance(case["ylower"], list) else case["ylower"]
         yhi = np.array(case["yupper"]) if isinstance(case["yupper"], list) else case["yupper"]
-        return M.LinearRegression(epsilon=eps, bounds_X=b, bounds_y=(ylo, yhi), fit_intercept="nointercept" not in name,
-                                  random_state=seed, accountant=_acc())
+        part = case.get("partial")       # "X": only bounds_X declared, "y": only bounds_y declared (the other derived from the data)
+        return M.LinearRegression(epsilon=eps, bounds_X=None if part == "y" else b, bounds_y=None if part == "X" else (ylo, yhi),
+                                  fit_intercept="nointercept" not in name, random_state=seed, accountant=_acc())
     if name == "RandomForestClassifier":
-        return M.RandomForestClassifier(n_estimators=2 if seq == "warm_start" else 3, epsilon=eps, bounds=b, classes=case["classes"],
-                                        max_depth=3, random_state=seed, warm_start=seq == "warm_start", accountant=_acc())
+        return M.RandomForestClassifier(n_estimators=2 if seq == "warm_start" else 3, epsilon=eps, bounds=b,
+                                        classes=None if case.get("partial") == "bounds" else case["classes"], max_depth=3, random_state=seed, warm_start=seq == "warm_start", accountant=_acc())
     if name == "DecisionTreeClassifier":
-        return M.DecisionTreeClassifier(max_depth=3, epsilon=eps, bounds=b, classes=case["classes"], random_state=seed,
+        return M.DecisionTreeClassifier(max_depth=3, epsilon=eps, bounds=b,
+                                        classes=None if case.get("partial") == "bounds" else case["classes"], random_state=seed,
                                         accountant=_acc())
     if name == "PCA":
         return M.PCA(n_components=case["k"], epsilon=eps, data_norm=case["c"], centered=True, random_state=seed, accountant=_acc())
@@ -703,6 +835,10 @@ def e2e_case_result(case):
     if v and case.get("dtype") and case["family"] == "tool" and (case.get("axis") is not None or case.get("keepdims")):
         # the per-cell wrapper of the tools allocates its output: a result truncated to the input data type
         return trivial, ("C10:tools:axis-output-dtype", f"[data type {case['dtype']}, axis={case.get('axis')}, keepdims={case.get('keepdims')}] " + v[1])
+    if v and case.get("partial"):
+        return trivial, (v[0] + ":partial", f"[only {case['partial']} declared, the other domain parameter derived from the data] " + v[1])
+    if v and case.get("declared"):
+        return trivial, (v[0] + ":partial", f"[ranges declared for dimensions {case['declared']} only] " + v[1])
     if v and (case.get("dtype") or case.get("seq")):
         v = (v[0] + (":dtype" if case.get("dtype") else "") + (":" + case["seq"] if case.get("seq") else ""),
              (f"[data type {case['dtype']}] " if case.get("dtype") else "") +
@@ -720,6 +856,8 @@ def _e2e_case_result(case):
             hi = np.broadcast_to(np.asarray(case["upper"], dtype=float), (D.shape[1],) if D.ndim == 2 else ())
             with np.errstate(invalid="ignore"):
                 keep = ((D >= lo) & (D <= hi))
+            if case.get("declared"):
+                keep = keep | ~np.array(case["declared"], dtype=bool)      # only the declared ranges select
             keep = keep.all(axis=1) if D.ndim == 2 else keep
             Dc = D[keep]
         else:
@@ -737,6 +875,10 @@ def _e2e_case_result(case):
             if name.startswith("LinearRegression"):
                 yc = ref_clip(y, case["ylower"], case["yupper"]) if y.ndim == 2 else \
                     np.minimum(np.maximum(y, case["ylower"]), case["yupper"])
+                if case.get("partial") == "X":
+                    yc = y                   # only the DECLARED domain is clipped in the reference image
+                elif case.get("partial") == "y":
+                    Dc = D
         res = []
         for data, yy in ((typed(D, dt), y), (Dc, yc)):
             try:
@@ -749,6 +891,8 @@ def _e2e_case_result(case):
     trivial = _eqv(D, Dc) if D.shape == Dc.shape else False
     if case["family"] == "model" and name.startswith("LinearRegression") and trivial:
         trivial = _eqv(y, yc)
+    if case.get("partial") or case.get("declared"):
+        trivial = False
     if k1 != k2 or (k1 == "exc" and o1.split(":")[0] != o2.split(":")[0]):
         return trivial, (f"C10:{name}:clip-invariance",
                          f"{name} on D and on clip(D) (seed {case['seed']}): {k1} {o1 if k1 == 'exc' else ''} vs {k2} {o2 if k2 == 'exc' else ''}")
@@ -826,6 +970,10 @@ def gen_e2e_case(r, name, family):
             kind, lo, hi = gen_e2e_bounds(r, 0, min_width=1e-3)
         nan_p = 0.15 if name.startswith("nan") else 0.0
         X = gen_data(r, n, lo, hi, d, out_p, nan_p)
+        if name in ("quantile", "percentile", "median") and r.chance(0.4):
+            # callers of check_bounds(min_separation=1e-5): a narrow window at a large offset must not be widened
+            kind, lo, hi = gen_offset_bounds(r, d if axis == 0 else 0)
+            X = gen_data_near(r, n, lo, hi, d, max(out_p, 0.2))
         case.update(lower=lo, upper=hi, axis=axis, keepdims=r.chance(0.3), D=X.tolist(), bkind=kind)
         if name == "quantile":
             case["q"] = r.choice([0.5, 0.1, 0.9, [0.25, 0.75], r.uniform(0, 1)])
@@ -851,6 +999,9 @@ def gen_e2e_case(r, name, family):
     n = r.randint(10, 50)
     kind, lo, hi = gen_e2e_bounds(r, d, min_width=1e-2)
     X = gen_data(r, n, lo, hi, d, out_p)
+    if name == "KMeans" and r.chance(0.4):
+        kind, lo, hi = gen_offset_bounds(r, d)
+        X = gen_data_near(r, n, lo, hi, d, max(out_p, 0.2))
     case.update(lower=lo, upper=hi, D=X.tolist(), bkind=kind)
     L = np.broadcast_to(np.asarray(lo, dtype=float), (d,))
     U = np.broadcast_to(np.asarray(hi, dtype=float), (d,))
@@ -941,6 +1092,43 @@ def add_seq(r, case):
     return case
 
 
+PARTIAL_MODELS = {"LinearRegression": ["X", "y"], "LinearRegression-nointercept": ["X", "y"], "LinearRegression-multi": ["X", "y"],
+                  "LinearRegression-multi-nointercept": ["X", "y"], "RandomForestClassifier": ["bounds"],
+                  "DecisionTreeClassifier": ["bounds"]}
+
+
+def add_partial(r, case):
+    """only ONE of several domain parameters declared (the other falls back to the data, PrivacyLeakWarning ignored): records
+    outside the DECLARED domain must still be clipped to it"""
+    case["partial"] = r.choice(PARTIAL_MODELS[case["name"]])
+    case["bkind"] = (case.get("bkind") or "") + "+partial-" + case["partial"]
+    return case
+
+
+def gen_histdd_partial(r):
+    """histogramdd with ranges for some dimensions only; records outside a declared range carry interior values in the
+    undeclared dimensions, so that dropping them does not move the data-derived ranges"""
+    case = gen_e2e_case(r, "histogramdd", "tool")
+    d = r.choice([2, 3])
+    lo = [r.uniform(-3, 3) for _ in range(d)]
+    hi = [l + r.uniform(0.5, 4.0) for l in lo]
+    decl = [True] + [r.chance(0.5) for _ in range(d - 1)]
+    if all(decl):
+        decl[-1] = False
+    r.shuffle(decl)
+    n = r.randint(12, 60)
+    X = gen_data(r, n, lo, hi, d, r.choice([0.1, 0.2, 0.4]))
+    X[:4] = np.array([[r.uniform(lo[j], hi[j]) for j in range(d)] for _ in range(4)])      # some records certainly kept
+    keep = np.all([(X[:, j] >= lo[j]) & (X[:, j] <= hi[j]) | (not decl[j]) for j in range(d)], axis=0)
+    for j in range(d):
+        if not decl[j]:
+            a, b = X[keep, j].min(), X[keep, j].max()
+            for i in np.flatnonzero(~keep):
+                X[i, j] = r.uniform(a, b)
+    case.update(lower=lo, upper=hi, declared=decl, D=X.tolist(), bkind="partial-range")
+    return case
+
+
 def _seq_rows(n, d, lo, hi, far):
     rs = np.random.RandomState(42)
     X = rs.uniform(lo, hi, size=(n, d))
@@ -987,6 +1175,22 @@ FIXED_E2E += [
 ]
 
 
+FIXED_E2E += [
+    # a one-hour window of timestamps / a narrow per-feature window at a large offset: the declared bounds are the domain
+    {"family": "tool", "name": "quantile", "eps": 1.0, "seed": 0, "lower": 1.6e9, "upper": 1.6e9 + 3600.0, "axis": None, "keepdims": False,
+     "q": 0.9, "bkind": "offset", "D": [1.6e9 + t for t in (100., 700., 1300., 1800., 2500., 3100., 3500., -5000., -2500., 6100., 9600.)]},
+    {"family": "model", "name": "KMeans", "eps": 50.0, "seed": 0, "k": 2, "lower": [0.0, 50000.0], "upper": [1.0, 50000.3], "bkind": "offset",
+     "D": [[(i * 0.37) % 1.0, 50000.0 + ((i * 0.11) % 0.3)] for i in range(48)] + [[0.5, 50000.39]] * 6 + [[0.2, 49999.91]] * 6},
+    # exactly one of bounds_X / bounds_y declared: the declared one must still be the clipping domain
+    {"family": "model", "name": "LinearRegression", "eps": 1.0, "seed": 4, "partial": "X", "lower": 0.0, "upper": 1.0, "ylower": 0.0,
+     "yupper": 1.0, "D": [[0.1], [0.5], [0.9], [50.0], [0.3], [0.7], [-20.0], [0.6]], "y": [0.1, 0.5, 0.9, 0.2, 0.3, 0.7, 0.4, 0.6],
+     "bkind": "scalar+partial-X"},
+    {"family": "model", "name": "LinearRegression", "eps": 1.0, "seed": 4, "partial": "y", "lower": 0.0, "upper": 1.0, "ylower": 0.0,
+     "yupper": 1.0, "D": [[0.1], [0.5], [0.9], [0.2], [0.3], [0.7], [0.4], [0.6]], "y": [0.1, 0.5, 0.9, 30.0, 0.3, 0.7, -12.0, 0.6],
+     "bkind": "scalar+partial-y"},
+]
+
+
 def check_e2e(ctx):
     r = ctx.fork("e2e")
     per_tool = ctx.budget(40, 400)
@@ -998,6 +1202,9 @@ def check_e2e(ctx):
         if name in TYPED_TOOLS:
             for _ in range(max(2, per_tool // 3)):
                 cases.append(add_dtype(r, gen_e2e_case(r, name, "tool")))
+        if name == "histogramdd":
+            for _ in range(max(2, per_tool // 3)):
+                cases.append(gen_histdd_partial(r))
     for name in MODELS:
         for _ in range(per_model):
             cases.append(gen_e2e_case(r, name, "model"))
@@ -1007,6 +1214,9 @@ def check_e2e(ctx):
         if name in SEQ_MODELS:
             for _ in range(max(2, per_model // 2)):
                 cases.append(add_seq(r, gen_e2e_case(r, name, "model")))
+        if name in PARTIAL_MODELS:
+            for _ in range(max(2, per_model // 2)):
+                cases.append(add_partial(r, gen_e2e_case(r, name, "model")))
     for i, case in enumerate(cases):
         trivial, v = e2e_case_result(case)
         if v:
@@ -1020,12 +1230,15 @@ def check_e2e(ctx):
 
 def check(ctx):
     check_helpers(ctx)
+    check_check_bounds(ctx)
     check_e2e(ctx)
 
 
 def replay(ctx, data):
     d = unjson(data["data"])
     case = d["case"]
+    if d["kind"] == "check_bounds":
+        return check_bounds_case(case) is not None
     if d["kind"] == "helper":
         A0, A, out, exc = run_helper_impl(case)
         return direct_helper(case, A0, A, out, exc) is not None
